@@ -17,7 +17,7 @@ func init() {
 		Technique: "bounded exhaustive exploration of set/set-nil/get/copy/grow operation sequences over several owners and keys on the real objects, compared after every step with a map-per-owner reference model; stored-state growth measured through the objects' %#v form",
 		Rule: "family owners: starting from a 3-column table (12 owners: table, column 0/1/3(last) each via a handle taken before any growth AND via a fresh lookup, column 2, attached row, detached row, body cell, header cell) or from an empty table (table, column 0 via handle and fresh lookup, detached row) x 3 keys x {v1,v2,nil} plus table growth by 3 and by 11 columns, all sequences to depth 3 (thorough 4); " +
 			"family copies: a cell, by-value copies of it made at any point (c := *cell; range copy), and one Cell value added to two rows, x 3 keys x {v1,v2,nil}, all sequences to depth 4 (thorough 5); " +
-			"family many-keys: a cell or table carrying 6..10 properties, read back in full (incl. a missing key) BEFORE a by-value copy, then <=2 sets on either side; family keys: one owner x 8 keys (equal values of distinct types, two pointers, a struct) x {v1,v2,nil} to depth 3; after EVERY step every owner is read for every key; non-trivial = sequence with an overwrite, a nil-set, a copy or a growth; distinct by reference state",
+			"family many-keys: a cell or table carrying 6..10, 17, 33..35, 40 or 65 properties, read back in full (incl. a missing key) BEFORE a by-value copy, then <=2 sets on either side; family keys: one owner x 8 keys (equal values of distinct types, two pointers, a struct) x {v1,v2,nil} to depth 3; after EVERY step every owner is read for every key; non-trivial = sequence with an overwrite, a nil-set, a copy or a growth; distinct by reference state",
 		Assumptions: []string{"keys are comparable and non-nil (others panic by design)", "stored-state size is read from the %#v form (number of chain links); if that form cannot be parsed the growth clause is skipped, not failed"},
 		QuickBudget: 120 * time.Second, ThoroughBudget: 20 * time.Minute,
 		Run: runC12,
@@ -355,8 +355,8 @@ func runC12(x *X) {
 
 	// ---- family many-keys: owners carrying many properties (look-up structures may change shape with size),
 	// read in full BEFORE being copied by value, then modified on either side
-	x.Explore("many-keys", ExploreOpts{ShardDepth: 2, Bound: "cell or table with 6..10 keys; full read-back incl. a missing key; by-value copy (cells); then <=2 sets (existing key / nil / new key) on either side"}, func(c *Chooser) {
-		nk := 6 + c.Choose(5)
+	x.Explore("many-keys", ExploreOpts{ShardDepth: 2, Bound: "cell or table with 6..10, 17, 33..35, 40 or 65 keys; full read-back incl. a missing key; by-value copy (cells); then <=2 sets (existing key / nil / new key) on either side"}, func(c *Chooser) {
+		nk := []int{6, 7, 8, 9, 10, 17, 33, 34, 35, 40, 65}[c.Choose(11)]
 		onTable := c.Choose(3) == 2
 		t := tabular.New()
 		t.AddRowItems("a")
